@@ -372,3 +372,34 @@ package unit
 //@ func CommaOk
 //@ note expect=left
 //@ ensures[never] (= result (- 1))
+//
+//@ func Bump
+//@ note expect=pass
+//@ requires (not (isnil p))
+//@ modifies *p
+//@ ensures[inc] (and (= p.a (+ (old p.a) 1)) (= p.b (old p.b)))
+//
+//@ func BumpWrong
+//@ note expect=fail:post.zero
+//@ requires (not (isnil p))
+//@ modifies *p
+//@ ensures[zero] (= p.b 0)
+//
+//@ func BumpIn
+//@ note expect=pass
+//@ requires (not (isnil w.in))
+//@ modifies *w.in
+//@ ensures[set] (= w.in.a 7)
+//
+//@ func CallsBumpIn
+//@ note expect=pass
+//@ ensures[seen] (= result 7)
+//
+//@ func CallsBumpInStale
+//@ note expect=fail:post.stale
+//@ ensures[stale] (= result 1)
+//
+//@ func CallsBumpKeepsB
+//@ note expect=pass
+//@ note the contract of Bump states that b keeps its value: the caller may use it
+//@ ensures[b] (= result 2)
